@@ -10,11 +10,15 @@ use std::io::Write;
 type R = CodecRegion<DictionaryCodec>;
 type SR = flatcontainer::StringRegion<CodecRegion<DictionaryCodec>>;
 
-/// the region under test: bytes in, bytes out; the string flavour goes through `&str`
-pub trait DictSubject: Region<Index = (usize, usize)> + Default {
+/// the object under test: bytes in, bytes out. Three flavours: the bare coded region, a string region
+/// over it (through `&str`), and a FlatStack over it (copy / get / merge_capacity / clear).
+pub trait DictSubject: Default {
     fn push_bytes(&mut self, b: &[u8]) -> (usize, usize);
     /// the bytes handed out, and whether they are valid UTF-8 where a `&str` was handed out
     fn read_bytes(&self, idx: (usize, usize)) -> (Vec<u8>, bool);
+    fn merged(srcs: &[&Self]) -> Self;
+    fn wipe(&mut self);
+    fn used_bytes(&self) -> usize;
 }
 impl DictSubject for R {
     fn push_bytes(&mut self, b: &[u8]) -> (usize, usize) {
@@ -22,6 +26,17 @@ impl DictSubject for R {
     }
     fn read_bytes(&self, idx: (usize, usize)) -> (Vec<u8>, bool) {
         (self.index(idx).to_vec(), true)
+    }
+    fn merged(srcs: &[&Self]) -> Self {
+        R::merge_regions(srcs.iter().map(|r| *r))
+    }
+    fn wipe(&mut self) {
+        self.clear()
+    }
+    fn used_bytes(&self) -> usize {
+        let mut u = 0;
+        self.heap_size(|a, _| u += a);
+        u
     }
 }
 impl DictSubject for SR {
@@ -34,6 +49,41 @@ impl DictSubject for SR {
         let ok = std::str::from_utf8(&b).is_ok();
         (b, ok)
     }
+    fn merged(srcs: &[&Self]) -> Self {
+        SR::merge_regions(srcs.iter().map(|r| *r))
+    }
+    fn wipe(&mut self) {
+        self.clear()
+    }
+    fn used_bytes(&self) -> usize {
+        let mut u = 0;
+        self.heap_size(|a, _| u += a);
+        u
+    }
+}
+/// FlatStack<CodecRegion<DictionaryCodec>>: the "index" of an item is its position in the stack
+type FS = flatcontainer::FlatStack<R>;
+impl DictSubject for FS {
+    fn push_bytes(&mut self, b: &[u8]) -> (usize, usize) {
+        self.copy(b);
+        (self.len() - 1, 0)
+    }
+    fn read_bytes(&self, idx: (usize, usize)) -> (Vec<u8>, bool) {
+        (self.get(idx.0).to_vec(), true)
+    }
+    fn merged(srcs: &[&Self]) -> Self {
+        FS::merge_capacity(srcs.iter().map(|r| *r))
+    }
+    fn wipe(&mut self) {
+        self.clear()
+    }
+    fn used_bytes(&self) -> usize {
+        // only the region's share: the stack's index vector is not stored bytes of the codec
+        let mut pairs = vec![];
+        self.heap_size(|a, _| pairs.push(a));
+        let idx_bytes = self.len() * std::mem::size_of::<(usize, usize)>();
+        pairs.iter().sum::<usize>().saturating_sub(idx_bytes)
+    }
 }
 
 struct DSlot<R: DictSubject> {
@@ -44,9 +94,7 @@ struct DSlot<R: DictSubject> {
 }
 
 fn used<R: DictSubject>(r: &R) -> usize {
-    let mut u = 0;
-    r.heap_size(|a, _| u += a);
-    u
+    r.used_bytes()
 }
 
 fn bytes_of(v: &Value) -> Vec<u8> {
@@ -123,7 +171,7 @@ pub fn run_scenario<R: DictSubject, W: Write>(run: u64, ops: &[Value], nslots: u
                 }
                 let merged = {
                     let refs: Vec<&R> = srcs.iter().map(|&x| &slots[x].r).collect();
-                    guarded(|| R::merge_regions(refs.as_slice().iter().map(|r| *r)))
+                    guarded(|| R::merged(refs.as_slice()))
                 };
                 match merged {
                     Err(m) => {
@@ -143,7 +191,7 @@ pub fn run_scenario<R: DictSubject, W: Write>(run: u64, ops: &[Value], nslots: u
                 }
                 let res = {
                     let r = &mut slots[s].r;
-                    guarded(|| r.clear())
+                    guarded(|| r.wipe())
                 };
                 slots[s].ids.clear();
                 slots[s].first_reads.clear();
@@ -160,7 +208,7 @@ pub fn run_scenario<R: DictSubject, W: Write>(run: u64, ops: &[Value], nslots: u
     }
 }
 
-pub fn cmd_run(file: &str, out: &str, nslots: usize, as_str: bool) {
+pub fn cmd_run(file: &str, out: &str, nslots: usize, as_str: bool, as_stack: bool) {
     quiet_panics();
     let f = std::fs::File::create(out).expect("create trace");
     let mut w = std::io::BufWriter::new(f);
@@ -179,7 +227,9 @@ pub fn cmd_run(file: &str, out: &str, nslots: usize, as_str: bool) {
         run += 1;
         let ops = scn["ops"].as_array().cloned().unwrap_or_default();
         let n = scn["nslots"].as_u64().map(|x| x as usize).unwrap_or(nslots);
-        if as_str {
+        if as_stack {
+            run_scenario::<FS, _>(run, &ops, n, &mut w);
+        } else if as_str {
             run_scenario::<SR, _>(run, &ops, n, &mut w);
         } else {
             run_scenario::<R, _>(run, &ops, n, &mut w);
@@ -278,6 +328,25 @@ pub fn cmd_gen(seed: u64, count: usize, out: &str) {
         }
         if rng.gen_bool(0.3) {
             ops.push(json!({"op": "push", "s": 1, "v": [], "n": 1}));
+        }
+        if k % 7 == 3 {
+            // unbalanced sources: the first one saw (almost) nothing, a later one many frequent strings; all of
+            // them fit the dictionary and must be coded whatever the order of the sources
+            let mut ops2: Vec<Value> = vec![json!({"op": "push", "s": 1, "v": [b'x'], "n": 1})];
+            let many: Vec<Vec<u8>> = (0..40u32).map(|i| format!("word-{i:02}-payload").into_bytes()).collect();
+            for w in &many {
+                ops2.push(json!({"op": "push", "s": 2, "v": w, "n": 5}));
+            }
+            ops2.push(json!({"op": "merge", "d": 5, "srcs": [1, 2]}));
+            for w in &many {
+                ops2.push(json!({"op": "push", "s": 5, "v": w, "n": 1}));
+            }
+            ops2.push(json!({"op": "merge", "d": 4, "srcs": [3, 1, 2]}));
+            for w in many.iter().take(10) {
+                ops2.push(json!({"op": "push", "s": 4, "v": w, "n": 1}));
+            }
+            writeln!(f, "{}", json!({"nslots": 5, "ops": ops2})).unwrap();
+            continue;
         }
         let srcs: Vec<usize> = (1..=nsrc).collect();
         ops.push(json!({"op": "merge", "d": 5, "srcs": srcs}));
